@@ -766,18 +766,24 @@ type c11Cons struct {
 
 // cons: with opaqueParens a parenthesised operand carries no tag constraint - the unchanged getConditionTags has no
 // ParenExpr case (parentheses around the whole residual condition are dropped by the planner, so the root is never opaque).
-func (n *c11Res) cons(opaqueParens, root bool) c11Cons {
+func (n *c11Res) cons(opaqueParens, root, sql bool) c11Cons {
 	if n.atom != nil {
 		switch n.atom.Text {
 		case "host = 'a'", "host = 'b'", "host = 'c'", "region = 'x'", "region = 'y'":
 			return c11Cons{sets: 1}
+		case "host =~ /^a$/":
+			// the planner rewrites an anchored literal regex to host = 'a' (RewriteRegexConditions); the direct probe
+			// hands the regex over unchanged
+			if sql {
+				return c11Cons{sets: 1}
+			}
 		}
 		return c11Cons{unconstrained: true}
 	}
 	if opaqueParens && n.paren && !root {
 		return c11Cons{unconstrained: true}
 	}
-	l, r := n.l.cons(opaqueParens, false), n.r.cons(opaqueParens, false)
+	l, r := n.l.cons(opaqueParens, false, sql), n.r.cons(opaqueParens, false, sql)
 	if n.op == "AND" {
 		switch {
 		case l.unconstrained:
@@ -810,7 +816,7 @@ func c11MissKind(cc c11CondCase, direct bool) string {
 		if x.atom != nil || (opaque && x.paren && !root) {
 			return // the implementation does not look inside
 		}
-		l, r := x.l.cons(opaque, false), x.r.cons(opaque, false)
+		l, r := x.l.cons(opaque, false, !direct), x.r.cons(opaque, false, !direct)
 		if x.op == "OR" && l.unconstrained != r.unconstrained {
 			orMixed = true
 		}
@@ -821,7 +827,7 @@ func c11MissKind(cc c11CondCase, direct bool) string {
 		walk(x.r, false)
 	}
 	walk(res, true)
-	c := res.cons(opaque, true)
+	c := res.cons(opaque, true, !direct)
 	switch {
 	case orMixed:
 		return "or_operand_without_tag_constraint_pruned"
